@@ -38,18 +38,14 @@ ASSUMPTIONS = [
     "keys: tuples of ints, slices, Ellipsis (None for reads only), full-dimension equal-length integer lists, full-shape "
     "boolean masks; an assignment that raises is modelled as leaving the dict unchanged (true for every key and "
     "value NumPy accepts)",
-    "on a 1-d DOK, __setitem__ reads a tuple of integers as an integer list (d[(0, 1)] = v assigns two elements; "
-    "NumPy raises IndexError: too many indices) — NumPy rejects these keys, so they are outside the property; the "
-    "one-element tuple (i,) is generated and modelled as the integer list [i]",
 ]
 
 EXC = {"ValueError": 1, "IndexError": 2, "TypeError": 3, "NotImplementedError": 4, "ZeroDivisionError": 5,
        "RuntimeError": 6, "OverflowError": 7}
-CLAUSES = {0: None, 3: "value_ndim_exceeds_slice_count", 4: "fancy_index_negative_or_out_of_range",
-           5: "fancy_empty_index_list", 6: "fancy_value_not_0d_or_exact_length", 7: "bool_mask_key",
-           8: "bool_mask_read_1d_taken_as_integers", 11: "numpy_int_scalar_out_of_dtype_range",
+CLAUSES = {0: None, 7: "bool_mask_key", 11: "numpy_int_scalar_out_of_dtype_range",
            12: "newaxis_in_assignment_key", 13: "index_array_in_basic_key",
-           10: "empty_tuple_key"}
+           14: "fancy_value_ndim_gt_1", 15: "zero_d_view_target_array_value",
+           16: "bool_element_from_one_element_array"}
 KINDS = {1: "representation", 2: "value", 3: "representation", 4: "value", 5: "value", 6: "representation",
          7: "representation"}
 KIND_NOTE = {1: "implementation differs from the model but agrees with the Spec (model no longer faithful)",
@@ -75,15 +71,13 @@ def py_key(key, shape):
         return tuple(es)
     if t == "basic":
         es = [e[1] if e[0] == "i" else slice(e[1], e[2], e[3]) for e in key["es"]]
-        if len(es) == 1:
+        if len(es) == 1 and key.get("render") != "tuple":
             return es[0]
         return tuple(es)
     if t == "fancy":
         r = key.get("render", "tuple")
         if r == "list":
             return list(key["ls"][0])
-        if r == "tuple1int":
-            return (key["ls"][0][0],)
         return tuple(list(l) for l in key["ls"])
     if t == "mask":
         if key.get("render") == "list":
@@ -369,8 +363,8 @@ def rnd_basic_key(rng, shape, tags, for_read=False):
         return {"t": "basic", "es": []}
     if r < 0.05:
         tags.append("key:too_many")
-        # (on a 1-d array a tuple of integers only would be read by __setitem__ as an integer LIST)
-        return {"t": "basic", "es": [["i", 0]] * nd + [sl_entry(None, None, None)]}
+        return {"t": "basic", "es": [["i", 0]] * (nd + 1) if rng.random() < 0.5 else
+                [["i", 0]] * nd + [sl_entry(None, None, None)]}
     n = nd if rng.random() < 0.8 else rng.randint(1, nd)
     es = []
     form = rng.random()
@@ -469,22 +463,35 @@ def retype_value(rng, dt, fill, vsh, vflat, tags):
     return [v if lo <= v <= hi else fill for v in vflat], "int"
 
 
-def rnd_fancy_key(rng, shape, tags, corrupt=False):
+def rnd_fancy_key(rng, shape, tags, wild=False):
+    """one integer list per axis; entries in [-d, d) (negatives wrap); wild: also out-of-range entries
+    (IndexError on both sides)"""
     nd = len(shape)
     n = rng.choice([0, 1, 1, 2, 2, 3, 4])
-    if any(d == 0 for d in shape) and not corrupt:
+    if any(d == 0 for d in shape) and not wild:
         n = 0
     ls = []
     for d in shape:
-        if corrupt:
-            ls.append([rng.choice([-1, -d, d, d + 1, 0]) for _ in range(max(n, 1))])
+        if wild:
+            ls.append([rng.choice([-1, -d, d, d + 1, 0, -d - 1]) for _ in range(max(n, 1))])
         else:
-            ls.append([rng.randrange(d) for _ in range(n)])
+            ls.append([rng.randrange(-d, d) if rng.random() < 0.3 else rng.randrange(d) for _ in range(n)])
     render = "tuple"
     if nd == 1 and rng.random() < 0.5:
         render = "list"
-    tags.append("key:fancy" + ("_empty" if n == 0 and not corrupt else "_corrupting" if corrupt else ""))
+    tags.append("key:fancy" + ("_empty" if n == 0 and not wild else "_out_of_range" if wild else ""))
+    if any(i < 0 for l in ls for i in l):
+        tags.append("key:fancy_negative")
     return {"t": "fancy", "ls": ls, "render": render}
+
+
+def rnd_mask_key(rng, shape, tags):
+    size = 1
+    for d in shape:
+        size *= d
+    m = [rng.random() < 0.4 for _ in range(size)]
+    tags.append("key:mask_1d" if len(shape) == 1 else "key:mask_nd")
+    return {"t": "mask", "m": m, "render": "list" if len(shape) == 1 and rng.random() < 0.5 else "ndarray"}
 
 
 def gen_history(rng, maxlen):
@@ -511,15 +518,9 @@ def gen_history(rng, maxlen):
         op = {"k": "set", "key": key, "vsh": vsh, "vflat": vflat}
         if dt != "int64":
             op["vflat"], op["vk"] = retype_value(rng, dt, fill, vsh, vflat, tags)
-            if key.get("render") == "tuple1int" and op["vk"] == "npint":
-                # NumPy reads (i,) as a BASIC index, the code as an integer list: the two conversions of a
-                # NumPy scalar differ by key form, so this rendering takes Python scalars only
-                lo, hi = DT_RANGE[dt]
-                op["vflat"], op["vk"] = [min(max(op["vflat"][0], lo), hi)], "int"
         ops.append(op)
 
     for i in range(n):
-        last = i == n - 1
         r = rng.random()
         if r < 0.06:
             ops.append({"k": "round"})
@@ -534,38 +535,34 @@ def gen_history(rng, maxlen):
                 key = rnd_basic_key(rng, shape, tags)
                 vsh, vflat = rnd_value(rng, fill, sel_shape(key["es"], shape) if len(key["es"]) <= nd else [], tags)
             elif kr < 0.93:
-                corrupt = last and rng.random() < 0.5
-                key = rnd_fancy_key(rng, shape, tags, corrupt=corrupt)
+                key = rnd_fancy_key(rng, shape, tags, wild=rng.random() < 0.06)
                 m = len(key["ls"][0])
                 vr = rng.random()
-                if vr < 0.5:
+                if vr < 0.45:
                     vsh, vflat = [], [fill if rng.random() < 0.25 else rng.randint(0, 9)]
-                elif vr < 0.9:
+                elif vr < 0.85:
                     vsh, vflat = [m], [fill if rng.random() < 0.25 else rng.randint(0, 9) for _ in range(m)]
-                else:
+                elif vr < 0.96:
                     vsh, vflat = [1], [rng.randint(1, 9)]
                     tags.append("val:fancy_len1")
-                if corrupt:
-                    push_set(key, vsh, vflat)
-                    break
+                else:
+                    vsh, vflat = [1, m], [rng.randint(0, 9) for _ in range(m)]     # ndim 2: refused by the code
+                    tags.append("val:fancy_ndim2")
             elif kr < 0.96 and nd == 1 and shape[0] > 0:
-                i0 = rng.randint(-shape[0], shape[0] - 1)
-                if i0 < 0 and not last:
-                    i0 += shape[0]
-                key = {"t": "fancy", "ls": [[i0]], "render": "tuple1int"}
+                # (i,) on a 1-d DOK: a basic key (the 1-d shortcut no longer takes tuples)
+                key = {"t": "basic", "es": [["i", rng.randint(-shape[0], shape[0] - 1)]], "render": "tuple"}
                 tags.append("key:tuple_of_one_int")
                 vsh, vflat = [], [rng.randint(0, 9)]
-                if i0 < 0:
-                    push_set(key, vsh, vflat)
-                    break
             else:
-                size = 1
-                for d in shape:
-                    size *= d
-                key = {"t": "mask", "m": [rng.random() < 0.4 for _ in range(size)],
-                       "render": "list" if nd == 1 and rng.random() < 0.5 else "ndarray"}
-                tags.append("key:mask")
-                vsh, vflat = [], [rng.randint(1, 9)]
+                key = rnd_mask_key(rng, shape, tags)
+                cnt = sum(1 for b in key["m"] if b)
+                vr = rng.random()
+                if vr < 0.5 or nd > 1:
+                    vsh, vflat = [], [fill if rng.random() < 0.25 else rng.randint(1, 9)]
+                elif vr < 0.85:
+                    vsh, vflat = [cnt], [fill if rng.random() < 0.25 else rng.randint(0, 9) for _ in range(cnt)]
+                else:
+                    vsh, vflat = [1], [rng.randint(1, 9)]
             push_set(key, vsh, vflat)
             if vflat and all(v == fill for v in vflat):
                 tags.append("val:all_fill")
@@ -575,16 +572,10 @@ def gen_history(rng, maxlen):
                 key = rnd_index_key(rng, shape, tags, for_read=True)
             elif kr < 0.8:
                 key = rnd_basic_key(rng, shape, tags, for_read=True)
-            elif kr < 0.95:
-                # reads cannot corrupt the dict: negative / too large indices are allowed anywhere
-                key = rnd_fancy_key(rng, shape, tags, corrupt=rng.random() < 0.15)
+            elif kr < 0.93:
+                key = rnd_fancy_key(rng, shape, tags, wild=rng.random() < 0.1)
             else:
-                size = 1
-                for d in shape:
-                    size *= d
-                key = {"t": "mask", "m": [rng.random() < 0.4 for _ in range(size)],
-                       "render": "list" if nd == 1 and rng.random() < 0.5 else "ndarray"}
-                tags.append("key:mask")
+                key = rnd_mask_key(rng, shape, tags)
             tags.append("read")
             ops.append({"k": "get", "key": key})
     return {"shape": shape, "fill": fill, "dtype": dt, "ops": ops, "origin": "random", "tags": tags}
@@ -623,15 +614,13 @@ def key_src(key, shape):
         return es[0] if len(es) == 1 else "(" + ",".join(es) + ")"
     if t == "basic":
         es = [str(e[1]) if e[0] == "i" else f"slice({e[1]},{e[2]},{e[3]})" for e in key["es"]]
-        if len(es) == 1:
+        if len(es) == 1 and key.get("render") != "tuple":
             return es[0]
         return "(" + ",".join(es) + ("," if len(es) == 1 else "") + ")"
     if t == "fancy":
         r = key.get("render", "tuple")
         if r == "list":
             return repr(key["ls"][0])
-        if r == "tuple1int":
-            return f"({key['ls'][0][0]},)"
         return "(" + ",".join(repr(l) for l in key["ls"]) + ("," if len(key["ls"]) == 1 else "") + ")"
     if key.get("render") == "list":
         return repr([bool(b) for b in key["m"]])
